@@ -1633,7 +1633,7 @@ impl Domain for D {
             if total <= (if thorough { 1500 } else { 800 }) {
                 emit(w, "all2", ver, &hdr, &s, "");
             } else {
-                for _ in 0..(if thorough { 60 } else { 12 }) {
+                for _ in 0..(if thorough { 60 } else { 6 }) {
                     let k = rng.below(total as u64 + 1);
                     emit(w, "hash", ver, &hdr, &s, &format!("s:{}", k));
                 }
